@@ -191,6 +191,14 @@ Definition requested_from_cache (m : list (Z * inst)) : list (Z * inst) :=
                else fold_left (fun r p => dset p (snd ti) r) (cprovides (icls (snd ti))) req) m [].
 
 (* ---------- Context.__get_plugin ---------- *)
+(* plugin.deps = {d: self.__get_plugin(run_id, d) for d in plugin.depends_on}; the cache is threaded *)
+Fixpoint fold_deps (gp : cache_t -> Z -> res (inst * cache_t)) (ds : list Z) (ca : cache_t) (acc : list inst)
+  : res (list inst * cache_t) :=
+  match ds with
+  | [] => Ok (acc, ca)
+  | d :: r => do ic <- gp ca d; fold_deps gp r (snd ic) (acc ++ [fst ic])
+  end.
+
 Fixpoint get_plugin (fuel : nat) (h : HT) (reg : registry) (conf : config) (ca : cache_t) (dt : Z)
   : res (inst * cache_t) :=
   match fuel with
@@ -209,12 +217,7 @@ Fixpoint get_plugin (fuel : nat) (h : HT) (reg : registry) (conf : config) (ca :
         | None => Err E_KEY
         | Some c =>
             do pconf <- plugin_config conf c;
-            do dc <- (fix deps (ds : list Z) (ca : cache_t) (acc : list inst) : res (list inst * cache_t) :=
-                        match ds with
-                        | [] => Ok (acc, ca)
-                        | d :: r => do ic <- get_plugin f h reg conf ca d;
-                                    deps r (snd ic) (acc ++ [fst ic])
-                        end) (cdepends c) ca [];
+            do dc <- fold_deps (get_plugin f h reg conf) (cdepends c) ca [];
             let i := mkinst c pconf (build_lineage c pconf (fst dc)) in
             Ok (i, cache_put h (snd dc) (cprovides c) i)
         end
@@ -310,6 +313,24 @@ Definition node (dt : Z) (c : cls) (pconf : config) (inputs : list tv) : tv :=
 (* get_components.check_cache + processing: load when found, else compute from the inputs and save
    every output of the plugin that is not found (never in fuzzy mode).
    Returns (data, store, ambiguous) where ambiguous = some find had more than one candidate. *)
+Fixpoint fold_inputs (gd : store -> Z -> res (tv * store * bool)) (ds : list Z) (st : store) (acc : list tv)
+         (amb : bool) : res (list tv * store * bool) :=
+  match ds with
+  | [] => Ok (acc, st, amb)
+  | d :: r => do x <- gd st d; fold_inputs gd r (snd (fst x)) (acc ++ [fst (fst x)]) (amb || snd x)
+  end.
+
+(* saving the outputs of a computed plugin that are not found yet *)
+Definition save_outputs (plugins : list (Z * inst)) (ff fo : list Z) (run : Z) (i : inst) (pconf : config)
+           (inputs : list tv) (st : store) : store :=
+  fold_left (fun s p =>
+               let ip := match lookup p plugins with Some j => j | None => i end in
+               match find_entries s run p (ilin ip) ff fo with
+               | _ :: _ => s
+               | [] => s ++ [mksentry run p (lineage_hash (ilin i)) (lin_json_rt (ilin i))
+                                       (node p (icls i) pconf inputs)]
+               end) (cprovides (icls i)) st.
+
 Fixpoint get_data (fuel : nat) (conf : config) (plugins : list (Z * inst)) (ff fo : list Z)
          (run : Z) (st : store) (dt : Z) : res (tv * store * bool) :=
   match fuel with
@@ -321,25 +342,11 @@ Fixpoint get_data (fuel : nat) (conf : config) (plugins : list (Z * inst)) (ff f
           match find_entries st run dt (ilin i) ff fo with
           | e :: more => Ok (sdata e, st, match more with [] => false | _ => true end)
           | [] =>
-              do ins <- (fix go (ds : list Z) (st : store) (acc : list tv) (amb : bool)
-                         : res (list tv * store * bool) :=
-                           match ds with
-                           | [] => Ok (acc, st, amb)
-                           | d :: r => do x <- get_data f conf plugins ff fo run st d;
-                                       go r (snd (fst x)) (acc ++ [fst (fst x)]) (amb || snd x)
-                           end) (cdepends (icls i)) st [] false;
+              do ins <- fold_inputs (fun st d => get_data f conf plugins ff fo run st d) (cdepends (icls i)) st [] false;
               do pconf <- plugin_config conf (icls i);     (* _set_plugin_config(d, tolerant=False) *)
               let inputs := fst (fst ins) in
               let st1 := snd (fst ins) in
-              let st2 :=
-                if fuzzy_on ff fo then st1
-                else fold_left (fun s p =>
-                       let ip := match lookup p plugins with Some j => j | None => i end in
-                       match find_entries s run p (ilin ip) ff fo with
-                       | _ :: _ => s
-                       | [] => s ++ [mksentry run p (lineage_hash (ilin i)) (lin_json_rt (ilin i))
-                                               (node p (icls i) pconf inputs)]
-                       end) (cprovides (icls i)) st1 in
+              let st2 := if fuzzy_on ff fo then st1 else save_outputs plugins ff fo run i pconf inputs st1 in
               Ok (node dt (icls i) pconf inputs, st2, snd ins)
           end
       end
